@@ -1,6 +1,7 @@
 // Verus unit c17_wal — C17: any log tail is tolerated on open.  WalReader::{try_read_u32,next_record},
 // Wal::{append, replay_committed_from_path}.  Bodies extracted from nervusdb-storage/src/wal.rs.
 //@unit c17_wal
+//@rlimit 50
 //@property C17
 use vstd::prelude::*;
 use std::collections::BTreeMap;
